@@ -55,10 +55,23 @@ def is_precision(e):
     if e[0] in ("param", "local"):
         return bool(e[2]) and "precision" in e[2].lower()
     if e[0] in ("call", "callat"):
-        return _name(e) == "precision"
+        if _name(e) == "precision":
+            return True
+        # by shape: the u8 getter of a normaliser (whatever it is called)
+        full = e[5] if e[0] == "callat" and len(e) > 5 else (e[4] if e[0] == "call" and len(e) > 4 else "")
+        res = e[4] if e[0] == "callat" else (e[3] if len(e) > 3 else None)
+        if isinstance(full, str) and "Normalizer" in full and _PROG is not None and isinstance(res, str):
+            g = _PROG.fns.get(res)
+            if g is not None and (g.d.get("output") or "") == "u8" and g.arg_count == 1:
+                return True
+        return False
     if e[0] == "field":
         return isinstance(e[2], str) and "precision" in e[2]
     return False
+
+
+_PROG = None
+_UNKNOWN_ROUND = []
 
 
 def _atoms(e, acc=None):
@@ -258,6 +271,10 @@ class Eval:
                 j = strip(sh[3])
                 if j[0] == "const" and isinstance(j[1], int) and 0 <= j[1] < 16:
                     return Fraction(1, 2 ** j[1])
+            if sh[0] == "bin" and sh[1] == "Sub" and strip(sh[3])[0] == "const" and strip(sh[2])[0] != "const":
+                # 1 << (x - j) with an x that is not recognised as the precision: a rounding
+                # constant of unknown size (the sink must not be judged as if there were none)
+                _UNKNOWN_ROUND.append(fmt(sh[2])[:60])
         return None
 
     # -- operands / places / locals
@@ -959,6 +976,8 @@ def budget(rep, prog, rule, floor=40):
              "content per lane as a fraction of 2^precision; data contributes 0). A total other "
              "than one half biases every output (a full unit turns round() into floor()+1 and "
              "lets a constant image leave its value)")
+    global _PROG
+    _PROG = prog
     n = 0
     for f in sorted(prog.fns.values(), key=lambda x: x.id):
         if not re.match(r"^convolution::(u8x\d|u16x\d|vertical_u8|vertical_u16|i32x1)::", f.name):
@@ -987,12 +1006,16 @@ def budget(rep, prog, rule, floor=40):
                     continue
             n += 1
             key = "%s|%s@%s" % (f.name, c.method or short(c.name), _sink_id(f, c))
+            del _UNKNOWN_ROUND[:]
             vals, tainted = eval_sink(prog, f, None, c.args[ai], at)
             if f.kind == "closure" or any(has_param_u(v) or has_q(v) for v in vals):
                 r2 = via_callers(prog, f, c, ai)
                 if r2 is not None:
                     vals, tainted = r2
             verdict, text = judge(vals)
+            if verdict == "bad" and _UNKNOWN_ROUND:
+                verdict, text = "unk", "%s (a constant 1 << (%s - j) feeds the accumulator, but `%s` is not " \
+                    "recognised as the precision)" % (text, _UNKNOWN_ROUND[0], _UNKNOWN_ROUND[0])
             if verdict == "bad" and tainted:
                 verdict, text = "unk", "%s (accumulator %s is also modified through a mutable " \
                     "borrow that is not followed)" % (text, sorted(tainted)[0])
